@@ -95,3 +95,444 @@ Proof.
   replace (3 * val_size v + 3)%nat with (ecost v + S (3 * val_size v + 2 - ecost v))%nat by lia.
   rewrite (enc_run_obj v e He). reflexivity.
 Qed.
+
+(* ------------------------------------------------------------------ *)
+(* Part C: integer casts and the prefix reader                          *)
+
+Lemma get_u32_be a b c d : a < 256 -> b < 256 -> c < 256 -> d < 256 ->
+  get_u32_expr a b c d = a * 16777216 + b * 65536 + c * 256 + d.
+Proof.
+  intros Ha Hb Hc Hd. unfold get_u32_expr. rewrite !shiftl_mul.
+  change (2 ^ 24) with 16777216. change (2 ^ 16) with 65536. change (2 ^ 8) with 256.
+  rewrite (lor_add_low (a * 16777216) (b * 65536) 24) by (change (2 ^ 24) with 16777216; lia).
+  rewrite (lor_add_low _ (c * 256) 16) by (change (2 ^ 16) with 65536; lia).
+  rewrite (lor_add_low _ d 8) by (change (2 ^ 8) with 256; lia).
+  reflexivity.
+Qed.
+
+Lemma wf_bytes_cons x r : wf_bytes (x :: r) = true -> x < 256 /\ wf_bytes r = true.
+Proof. cbn. rewrite andb_true_iff, N.ltb_lt. tauto. Qed.
+
+Lemma int_from_bytes_be b : wf_bytes b = true -> (length b <= 7)%nat ->
+  int_from_bytes b = Some (be_unsigned b).
+Proof.
+  intros Hw Hl.
+  destruct b as [|a1 [|a2 [|a3 [|a4 [|a5 [|a6 [|a7 [|a8 r]]]]]]]]; try (cbn in Hl; lia);
+  repeat match goal with H : wf_bytes (_ :: _) = true |- _ => apply wf_bytes_cons in H; destruct H as [? H] end;
+  unfold int_from_bytes, be_unsigned; cbn [length N.of_nat Pos.of_succ_nat Pos.succ be_acc];
+  try reflexivity.
+  all: match goal with |- (if ?c then _ else _) = _ => change c with false; cbv iota end.
+  all: unfold from_bytes_core; cbn [length Nat.modulo Nat.divmod Nat.div Nat.sub fst snd Nat.eqb groups_loop remain_loop get_u32 nth Nat.add Nat.mul].
+  all: unfold get_u32; cbn [nth Nat.add]; rewrite ?get_u32_be by assumption.
+  all: unfold two64, two32; f_equal.
+  all: repeat rewrite N.mod_small by lia.
+  all: lia.
+Qed.
+Definition strip_ok (b : N) : bool :=
+  let '(b', k) := strip_prefix 9 b DECODE_BIT_MASK_INIT DECODE_BIT_COUNT_INIT in
+  (b' =? b - (256 - 2 ^ (8 - N.of_nat (leading_ones b)))) && (k =? N.of_nat (leading_ones b)).
+
+Lemma strip_prefix_spec b : b < 255 ->
+  strip_prefix 9 b DECODE_BIT_MASK_INIT DECODE_BIT_COUNT_INIT =
+    (b - (256 - 2 ^ (8 - N.of_nat (leading_ones b))), N.of_nat (leading_ones b)).
+Proof.
+  intros H.
+  assert (A : forallb strip_ok (nrange 255) = true) by (vm_compute; reflexivity).
+  pose proof (forall_nrange strip_ok 255 A b) as S. cbv beta in S.
+  specialize (S ltac:(cbn; lia)). unfold strip_ok in S.
+  destruct (strip_prefix 9 b DECODE_BIT_MASK_INIT DECODE_BIT_COUNT_INIT) as [b' k].
+  apply andb_true_iff in S. destruct S as [S1 S2]. apply N.eqb_eq in S1, S2. congruence.
+Qed.
+
+Lemma firstn_app_exact {A} (a b : list A) : firstn (length a) (a ++ b) = a.
+Proof. rewrite firstn_app, Nat.sub_diag, firstn_all. cbn. apply app_nil_r. Qed.
+Lemma skipn_app_exact {A} (a b : list A) : skipn (length a) (a ++ b) = b.
+Proof. rewrite skipn_app, Nat.sub_diag, skipn_all. reflexivity. Qed.
+
+Ltac lo_solve := unfold leading_ones;
+  repeat match goal with |- context [N.ltb ?a ?b] => destruct (N.ltb_spec a b) end; try lia; try reflexivity.
+
+Lemma prefix_decodes size p : spec_prefix size = Some p -> 1 <= size ->
+  exists f ps k, p = f :: ps /\ 128 < f /\ f < 252 /\ leading_ones f = k /\ (1 <= k <= 5)%nat /\
+    length ps = (k - 1)%nat /\
+    wf_bytes ((f - (256 - 2 ^ (8 - N.of_nat k))) :: ps) = true /\
+    be_unsigned ((f - (256 - 2 ^ (8 - N.of_nat k))) :: ps) = size.
+Proof.
+  unfold spec_prefix. intros H Hs.
+  destruct (N.ltb_spec size 64) as [H1|H1].
+  { inversion H; subst p. exists (128 + size), [], 1%nat.
+    split; [reflexivity|]. split; [lia|]. split; [lia|]. split; [lo_solve|]. split; [lia|]. split; [reflexivity|].
+    change (2 ^ (8 - N.of_nat 1)) with 128. split.
+    - cbn [wf_bytes]. rewrite andb_true_r. apply N.ltb_lt. lia.
+    - unfold be_unsigned; cbn [be_acc]. lia. }
+  destruct (N.ltb_spec size 8192) as [H2|H2].
+  { inversion H; subst p. exists (192 + size / 256), [size mod 256], 2%nat.
+    split; [reflexivity|]. split; [lia|]. split; [lia|]. split; [lo_solve|]. split; [lia|]. split; [reflexivity|].
+    change (2 ^ (8 - N.of_nat 2)) with 64. split.
+    - cbn [wf_bytes]. rewrite andb_true_r. apply andb_true_iff. split; apply N.ltb_lt; lia.
+    - unfold be_unsigned; cbn [be_acc]. lia. }
+  destruct (N.ltb_spec size 1048576) as [H3|H3].
+  { inversion H; subst p. exists (224 + size / 65536), [(size / 256) mod 256; size mod 256], 3%nat.
+    split; [reflexivity|]. split; [lia|]. split; [lia|]. split; [lo_solve|]. split; [lia|]. split; [reflexivity|].
+    change (2 ^ (8 - N.of_nat 3)) with 32. split.
+    - cbn [wf_bytes]. rewrite andb_true_r. repeat (apply andb_true_iff; split); apply N.ltb_lt; lia.
+    - unfold be_unsigned; cbn [be_acc]. lia. }
+  destruct (N.ltb_spec size 134217728) as [H4|H4].
+  { inversion H; subst p. exists (240 + size / 16777216), [(size / 65536) mod 256; (size / 256) mod 256; size mod 256], 4%nat.
+    split; [reflexivity|]. split; [lia|]. split; [lia|]. split; [lo_solve|]. split; [lia|]. split; [reflexivity|].
+    change (2 ^ (8 - N.of_nat 4)) with 16. split.
+    - cbn [wf_bytes]. rewrite andb_true_r. repeat (apply andb_true_iff; split); apply N.ltb_lt; lia.
+    - unfold be_unsigned; cbn [be_acc]. lia. }
+  destruct (N.ltb_spec size 17179869184) as [H5|H5]; [|discriminate].
+  { inversion H; subst p. exists (248 + size / 4294967296), [(size / 16777216) mod 256; (size / 65536) mod 256; (size / 256) mod 256; size mod 256], 5%nat.
+    split; [reflexivity|]. split; [lia|]. split; [lia|]. split; [lo_solve|]. split; [lia|]. split; [reflexivity|].
+    change (2 ^ (8 - N.of_nat 5)) with 8. split.
+    - cbn [wf_bytes]. rewrite andb_true_r. repeat (apply andb_true_iff; split); apply N.ltb_lt; lia.
+    - unfold be_unsigned; cbn [be_acc]. lia. }
+Qed.
+
+Lemma spec_prefix_bound size p : spec_prefix size = Some p -> size < 17179869184.
+Proof.
+  unfold spec_prefix. repeat match goal with |- context [N.ltb ?a ?b] => destruct (N.ltb_spec a b) end; try lia. discriminate.
+Qed.
+
+(* an encoded atom is read back *)
+Lemma atom_from_stream_sized bs p rest :
+  spec_prefix (N.of_nat (length bs)) = Some p -> (1 <= length bs)%nat ->
+  exists f tl, p = f :: tl /\ f <> 255 /\
+    atom_from_stream f ((tl ++ bs) ++ rest) = (Some (Atom bs), rest).
+Proof.
+  intros Hp Hl. pose proof (spec_prefix_bound _ _ Hp) as Hb.
+  destruct (prefix_decodes _ _ Hp ltac:(lia)) as (f & ps & k & -> & Hf1 & Hf2 & Hk & Hkr & Hlen & Hwf & Hbe).
+  exists f, ps. split; [reflexivity|]. split; [lia|].
+  unfold atom_from_stream.
+  unfold DECODE_EMPTY_BYTE, MAX_SINGLE_BYTE.
+  replace (f =? 128) with false by (symmetry; apply N.eqb_neq; lia).
+  replace (f <=? 127) with false by (symmetry; apply N.leb_gt; lia).
+  rewrite strip_prefix_spec by lia. rewrite Hk.
+  unfold DECODE_MAX_SIZE_BYTES.
+  replace (6 <? N.of_nat k) with false by (symmetry; apply N.ltb_ge; lia).
+  replace (N.to_nat (N.of_nat k - 1)) with (k - 1)%nat by lia.
+  rewrite <- app_assoc.
+  destruct (N.ltb_spec 1 (N.of_nat k)) as [Hk1|Hk1].
+  - unfold stream_read. rewrite <- Hlen. rewrite firstn_app_exact, skipn_app_exact.
+    rewrite Nat.eqb_refl. cbn [negb andb].
+    rewrite int_from_bytes_be; [|exact Hwf|cbn [length]; lia].
+    rewrite Hbe. unfold DECODE_SIZE_LIMIT.
+    replace (17179869184 <=? N.of_nat (length bs)) with false by (symmetry; apply N.leb_gt; lia).
+    rewrite app_length.
+    replace (N.of_nat (length bs + length rest) <? N.of_nat (length bs)) with false by (symmetry; apply N.ltb_ge; lia).
+    rewrite Nat2N.id. rewrite firstn_app_exact, skipn_app_exact. reflexivity.
+  - assert (Ek : k = 1%nat) by lia. rewrite Ek in Hlen, Hwf, Hbe |- *. destruct ps; [|cbn in Hlen; discriminate]. cbn [andb app].
+    rewrite int_from_bytes_be; [|exact Hwf|cbn [length]; lia].
+    rewrite Hbe. unfold DECODE_SIZE_LIMIT.
+    replace (17179869184 <=? N.of_nat (length bs)) with false by (symmetry; apply N.leb_gt; lia).
+    rewrite app_length.
+    replace (N.of_nat (length bs + length rest) <? N.of_nat (length bs)) with false by (symmetry; apply N.ltb_ge; lia).
+    unfold stream_read. rewrite Nat2N.id. rewrite firstn_app_exact, skipn_app_exact. reflexivity.
+Qed.
+
+(* ------------------------------------------------------------------ *)
+(* Part D: decode (encode v ++ rest) = (v, rest)                        *)
+
+Fixpoint dcost (v : val) : nat :=
+  match v with Atom _ => 1%nat | Cons a d => S (S (dcost a + dcost d)) end.
+
+Lemma spec_encode_atom_nonempty b e : spec_encode_atom b = Some e -> (1 <= length e)%nat.
+Proof.
+  unfold spec_encode_atom. destruct b as [|x [|y r]].
+  - intros H; inversion H; cbn; lia.
+  - destruct (x <? 128); [intros H; inversion H; cbn; lia|].
+    destruct (spec_prefix 1); [|discriminate]. intros H; inversion H. rewrite app_length. cbn. lia.
+  - destruct (spec_prefix _); [|discriminate]. intros H; inversion H. rewrite app_length. cbn. lia.
+Qed.
+
+Lemma dcost_bound v : forall e, spec_encode v = Some e -> (dcost v <= 3 * length e)%nat.
+Proof.
+  induction v as [b|a IHa d IHd]; intros e He; cbn [spec_encode] in He.
+  - apply spec_encode_atom_nonempty in He. cbn [dcost]. lia.
+  - destruct (spec_encode a) as [x|]; [|discriminate]. destruct (spec_encode d) as [y|]; [|discriminate].
+    inversion He; subst e. specialize (IHa x eq_refl). specialize (IHd y eq_refl).
+    cbn [dcost length]. rewrite app_length. lia.
+Qed.
+
+Lemma dec_run_marker f ops vals s :
+  dec_run (S f) (DRead :: ops) vals (255 :: s) = dec_run f (DRead :: DRead :: DCons :: ops) vals s.
+Proof. reflexivity. Qed.
+Lemma dec_run_cons f ops l r vs s :
+  dec_run (S f) (DCons :: ops) (r :: l :: vs) s = dec_run f ops (Cons l r :: vs) s.
+Proof. reflexivity. Qed.
+
+Lemma dec_run_atom b e : spec_encode_atom b = Some e ->
+  forall f ops vals rest,
+    dec_run (S f) (DRead :: ops) vals (e ++ rest) = dec_run f ops (Atom b :: vals) rest.
+Proof.
+  intros He f ops vals rest. unfold spec_encode_atom in He.
+  destruct b as [|x [|y r]].
+  - inversion He; subst e. cbn [app dec_run]. reflexivity.
+  - destruct (N.ltb_spec x 128) as [Hx|Hx].
+    + inversion He; subst e. cbn [app dec_run]. unfold CONS_BOX_MARKER.
+      replace (x =? 255) with false by (symmetry; apply N.eqb_neq; lia).
+      unfold atom_from_stream, DECODE_EMPTY_BYTE, MAX_SINGLE_BYTE.
+      replace (x =? 128) with false by (symmetry; apply N.eqb_neq; lia).
+      replace (x <=? 127) with true by (symmetry; apply N.leb_le; lia). reflexivity.
+    + destruct (spec_prefix 1) as [p|] eqn:Ep; [|discriminate]. inversion He; subst e.
+      destruct (atom_from_stream_sized [x] p rest Ep ltac:(cbn; lia)) as (f0 & tl & -> & Hf & Hd).
+      cbn [app dec_run]. unfold CONS_BOX_MARKER.
+      replace (f0 =? 255) with false by (symmetry; apply N.eqb_neq; exact Hf).
+      cbn [app] in Hd. rewrite Hd. reflexivity.
+  - destruct (spec_prefix _) as [p|] eqn:Ep; [|discriminate]. inversion He; subst e.
+    destruct (atom_from_stream_sized (x :: y :: r) p rest Ep ltac:(cbn; lia)) as (f0 & tl & -> & Hf & Hd).
+    cbn [app dec_run]. unfold CONS_BOX_MARKER.
+    replace (f0 =? 255) with false by (symmetry; apply N.eqb_neq; exact Hf).
+    cbn [app] in Hd. rewrite Hd. reflexivity.
+Qed.
+
+Lemma dec_run_encoded v : forall e, spec_encode v = Some e ->
+  forall f ops vals rest,
+    dec_run (dcost v + f) (DRead :: ops) vals (e ++ rest) = dec_run f ops (v :: vals) rest.
+Proof.
+  induction v as [b|a IHa d IHd]; intros e He f ops vals rest; cbn [spec_encode] in He.
+  - cbn [dcost Nat.add]. apply dec_run_atom. exact He.
+  - destruct (spec_encode a) as [x|] eqn:Ea; [|discriminate].
+    destruct (spec_encode d) as [y|] eqn:Ed; [|discriminate].
+    inversion He; subst e. cbn [dcost Nat.add app].
+    rewrite dec_run_marker. rewrite <- app_assoc.
+    replace (S (dcost a + dcost d + f)) with (dcost a + (dcost d + S f))%nat by lia.
+    rewrite (IHa x eq_refl). rewrite (IHd y eq_refl). rewrite dec_run_cons. reflexivity.
+Qed.
+
+Theorem decode_encode v e rest : spec_encode v = Some e -> decode (e ++ rest) = Some (v, rest).
+Proof.
+  intros He. unfold decode. pose proof (dcost_bound v e He) as Hb.
+  rewrite app_length.
+  replace (3 * (length e + length rest) + 3)%nat
+    with (dcost v + S (3 * (length e + length rest) + 2 - dcost v))%nat by lia.
+  rewrite (dec_run_encoded v e He). reflexivity.
+Qed.
+
+(* ------------------------------------------------------------------ *)
+(* Part E: whatever decode returns, the reference decoder returns too   *)
+(* (the per-op errors that sexp_from_stream ignores are harmless)       *)
+
+Fixpoint exec_count (c : nat) (ops : list dec_op) : option nat :=
+  match ops with
+  | [] => Some c
+  | DRead :: r => exec_count (S c) r
+  | DCons :: r => if (2 <=? c)%nat then exec_count (c - 1) r else None
+  end.
+
+Lemma dec_run_S f ops vals s : dec_run (S f) ops vals s =
+  match ops with
+  | [] => Some (vals, s)
+  | DCons :: ops' =>
+      match vals with
+      | r :: l :: vs => dec_run f ops' (Cons l r :: vs) s
+      | _ => dec_run f ops' [] s
+      end
+  | DRead :: ops' =>
+      match s with
+      | [] => dec_run f ops' vals s
+      | b :: s' =>
+          if b =? CONS_BOX_MARKER then dec_run f (DRead :: DRead :: DCons :: ops') vals s'
+          else match atom_from_stream b s' with
+               | (Some v, s'') => dec_run f ops' (v :: vals) s''
+               | (None, s'') => dec_run f ops' vals s''
+               end
+      end
+  end.
+Proof. reflexivity. Qed.
+
+(* once a value is missing (d >= 1), the run can only end with an empty value stack *)
+Lemma deficit_empty : forall f ops vals s d vals' s',
+  (1 <= d)%nat -> exec_count (length vals + d) ops = Some 1%nat ->
+  dec_run f ops vals s = Some (vals', s') -> vals' = [].
+Proof.
+  induction f as [|f IH]; intros ops vals s d vals' s' Hd He Hr; [discriminate|].
+  rewrite dec_run_S in Hr. destruct ops as [|[|] ops'].
+  - inversion Hr; subst. cbn in He. inversion He. destruct vals'; [reflexivity|cbn in *; lia].
+  - cbn [exec_count] in He. destruct (Nat.leb_spec 2 (length vals + d)) as [H2|H2]; [|discriminate].
+    destruct vals as [|r [|l vs]].
+    + apply (IH ops' [] s (d - 1)%nat vals' s'); [cbn in *; lia | | exact Hr].
+      cbn [length] in *. replace (0 + (d - 1))%nat with (0 + d - 1)%nat by lia. exact He.
+    + apply (IH ops' [] s d vals' s'); [lia | | exact Hr].
+      cbn [length] in *. replace (0 + d)%nat with (1 + d - 1)%nat by lia. exact He.
+    + apply (IH ops' (Cons l r :: vs) s d vals' s'); [lia | | exact Hr].
+      cbn [length] in *. replace (S (length vs) + d)%nat with (S (S (length vs)) + d - 1)%nat by lia. exact He.
+  - cbn [exec_count] in He. destruct s as [|b s0].
+    + apply (IH ops' vals [] (S d) vals' s'); [lia | | exact Hr].
+      replace (length vals + S d)%nat with (S (length vals + d)) by lia. exact He.
+    + destruct (b =? CONS_BOX_MARKER).
+      * apply (IH (DRead :: DRead :: DCons :: ops') vals s0 d vals' s'); [lia | | exact Hr].
+        cbn [exec_count]. replace (2 <=? S (S (length vals + d)))%nat with true by (symmetry; apply Nat.leb_le; lia).
+        replace (S (S (length vals + d)) - 1)%nat with (S (length vals + d)) by lia. exact He.
+      * destruct (atom_from_stream b s0) as [[v|] s2].
+        -- apply (IH ops' (v :: vals) s2 d vals' s'); [lia | | exact Hr]. cbn [length]. exact He.
+        -- apply (IH ops' vals s2 (S d) vals' s'); [lia | | exact Hr].
+           replace (length vals + S d)%nat with (S (length vals + d)) by lia. exact He.
+Qed.
+
+Fixpoint dec_strict (fuel : nat) (ops : list dec_op) (vals : list val) (s : bytes) : option (list val * bytes) :=
+  match fuel with
+  | O => None
+  | S f =>
+      match ops with
+      | [] => Some (vals, s)
+      | DCons :: ops' =>
+          match vals with
+          | r :: l :: vs => dec_strict f ops' (Cons l r :: vs) s
+          | _ => None
+          end
+      | DRead :: ops' =>
+          match s with
+          | [] => None
+          | b :: s' =>
+              if b =? CONS_BOX_MARKER then dec_strict f (DRead :: DRead :: DCons :: ops') vals s'
+              else match atom_from_stream b s' with
+                   | (Some v, s'') => dec_strict f ops' (v :: vals) s''
+                   | (None, _) => None
+                   end
+          end
+      end
+  end.
+
+Lemma lenient_is_strict : forall f ops vals s vals' s',
+  exec_count (length vals) ops = Some 1%nat ->
+  dec_run f ops vals s = Some (vals', s') -> vals' <> [] ->
+  dec_strict f ops vals s = Some (vals', s').
+Proof.
+  induction f as [|f IH]; intros ops vals s vals' s' He Hr Hne; [discriminate|].
+  rewrite dec_run_S in Hr. cbn [dec_strict]. destruct ops as [|[|] ops'].
+  - exact Hr.
+  - cbn [exec_count] in He. destruct (Nat.leb_spec 2 (length vals)) as [H2|H2]; [|discriminate].
+    destruct vals as [|r [|l vs]]; try (cbn in H2; lia).
+    apply IH; [|exact Hr|exact Hne]. cbn [length] in *.
+    replace (S (length vs)) with (S (S (length vs)) - 1)%nat by lia. exact He.
+  - cbn [exec_count] in He. destruct s as [|b s0].
+    + exfalso. apply Hne. apply (deficit_empty f ops' vals [] 1 vals' s'); [lia | | exact Hr].
+      replace (length vals + 1)%nat with (S (length vals)) by lia. exact He.
+    + destruct (b =? CONS_BOX_MARKER).
+      * apply IH; [|exact Hr|exact Hne]. cbn [exec_count].
+        replace (2 <=? S (S (length vals)))%nat with true by (symmetry; apply Nat.leb_le; lia).
+        replace (S (S (length vals)) - 1)%nat with (S (length vals)) by lia. exact He.
+      * destruct (atom_from_stream b s0) as [[v|] s2].
+        -- apply IH; [|exact Hr|exact Hne]. cbn [length]. exact He.
+        -- exfalso. apply Hne. apply (deficit_empty f ops' vals s2 1 vals' s'); [lia | | exact Hr].
+           replace (length vals + 1)%nat with (S (length vals)) by lia. exact He.
+Qed.
+
+(* well-formedness of byte strings under firstn / skipn *)
+Lemma wf_bytes_skipn n s : wf_bytes s = true -> wf_bytes (skipn n s) = true.
+Proof.
+  revert s; induction n as [|n IH]; intros s H; [exact H|]. destruct s as [|x r]; [reflexivity|].
+  cbn [skipn]. apply IH. apply wf_bytes_cons in H. tauto.
+Qed.
+Lemma wf_bytes_firstn n s : wf_bytes s = true -> wf_bytes (firstn n s) = true.
+Proof.
+  revert s; induction n as [|n IH]; intros s H; [reflexivity|]. destruct s as [|x r]; [reflexivity|].
+  cbn [firstn wf_bytes]. apply wf_bytes_cons in H. destruct H as [Hx Hr].
+  rewrite IH by exact Hr. rewrite andb_true_r. apply N.ltb_lt. exact Hx.
+Qed.
+
+(* the atom reader agrees with the reference atom reader whenever it returns a value *)
+Lemma atom_from_stream_sound b s v s2 :
+  wf_bytes (b :: s) = true -> b <> 255 ->
+  atom_from_stream b s = (Some v, s2) ->
+  spec_decode_atom b s = Some (v, s2) /\ wf_bytes s2 = true.
+Proof.
+  intros Hw Hb. apply wf_bytes_cons in Hw. destruct Hw as [Hb256 Hws].
+  unfold atom_from_stream, spec_decode_atom, DECODE_EMPTY_BYTE, MAX_SINGLE_BYTE.
+  destruct (N.eqb_spec b 128) as [->|Hn128].
+  { intros H; inversion H; subst. split; [|exact Hws].
+    change (128 <? 128) with false. change (leading_ones 128) with 1%nat. cbv iota.
+    change (Nat.ltb 6 1) with false. cbn [Nat.sub firstn skipn length Nat.eqb negb].
+    change (128 - (256 - 2 ^ (8 - N.of_nat 1))) with 0. change (be_unsigned [0]) with 0.
+    change (17179869184 <=? 0) with false. cbv iota.
+    replace (N.of_nat (length s2) <? 0) with false by (symmetry; apply N.ltb_ge; lia). reflexivity. }
+  destruct (N.leb_spec b 127) as [Hle|Hgt].
+  { intros H; inversion H; subst. replace (b <? 128) with true by (symmetry; apply N.ltb_lt; lia).
+    split; [reflexivity|exact Hws]. }
+  replace (b <? 128) with false by (symmetry; apply N.ltb_ge; lia).
+  rewrite strip_prefix_spec by lia.
+  set (k := leading_ones b).
+  assert (Hk : (1 <= k <= 7)%nat).
+  { subst k. unfold leading_ones.
+    repeat match goal with |- context [N.ltb ?a ?b] => destruct (N.ltb_spec a b) end; lia. }
+  unfold DECODE_MAX_SIZE_BYTES.
+  destruct (N.ltb_spec 6 (N.of_nat k)) as [H6|H6]; [discriminate|].
+  replace (Nat.ltb 6 k) with false by (symmetry; apply Nat.ltb_ge; lia).
+  replace (N.to_nat (N.of_nat k - 1)) with (k - 1)%nat by lia.
+  set (first := b - (256 - 2 ^ (8 - N.of_nat k))).
+  assert (Hfirst : first < 256) by (subst first; lia).
+  destruct (N.ltb_spec 1 (N.of_nat k)) as [Hk1|Hk1].
+  - unfold stream_read.
+    destruct (Nat.eqb_spec (length (firstn (k - 1) s)) (k - 1)) as [Hlen|Hlen]; cbn [negb andb]; [|discriminate].
+    rewrite int_from_bytes_be.
+    2:{ cbn [wf_bytes]. rewrite wf_bytes_firstn by exact Hws. rewrite andb_true_r. apply N.ltb_lt. exact Hfirst. }
+    2:{ cbn [length]. rewrite Hlen. lia. }
+    unfold DECODE_SIZE_LIMIT.
+    destruct (17179869184 <=? be_unsigned (first :: firstn (k - 1) s)); [discriminate|].
+    destruct (N.of_nat (length (skipn (k - 1) s)) <? be_unsigned (first :: firstn (k - 1) s)); [discriminate|].
+    intros H; inversion H; subst. split; [reflexivity|].
+    apply wf_bytes_skipn. apply wf_bytes_skipn. exact Hws.
+  - assert (Ek : k = 1%nat) by lia. subst first. clearbody k. subst k.
+    cbn [andb Nat.sub firstn skipn length Nat.eqb negb].
+    rewrite int_from_bytes_be.
+    2:{ cbn [wf_bytes]. rewrite andb_true_r. apply N.ltb_lt. exact Hfirst. }
+    2:{ cbn [length]. lia. }
+    unfold DECODE_SIZE_LIMIT, stream_read.
+    destruct (17179869184 <=? be_unsigned _); [discriminate|].
+    destruct (N.of_nat (length s) <? be_unsigned _); [discriminate|].
+    intros H; inversion H; subst. split; [reflexivity|]. apply wf_bytes_skipn. exact Hws.
+Qed.
+
+Lemma spec_decode_mono : forall g s r, spec_decode g s = Some r -> forall g', (g <= g')%nat -> spec_decode g' s = Some r.
+Proof.
+  induction g as [|g IH]; intros s r H g' Hle; [discriminate|].
+  destruct g' as [|g']; [lia|]. cbn [spec_decode] in *.
+  destruct s as [|b s']; [discriminate|].
+  destruct (b =? 255); [|exact H].
+  destruct (spec_decode g s') as [[l s1]|] eqn:E1; [|discriminate].
+  rewrite (IH _ _ E1 g') by lia.
+  destruct (spec_decode g s1) as [[r0 s2]|] eqn:E2; [|discriminate].
+  rewrite (IH _ _ E2 g') by lia. exact H.
+Qed.
+
+Lemma strict_read : forall f ops vals s r,
+  wf_bytes s = true -> dec_strict f (DRead :: ops) vals s = Some r ->
+  exists v s1 f', (f' < f)%nat /\ (exists g, spec_decode g s = Some (v, s1)) /\
+                  wf_bytes s1 = true /\ dec_strict f' ops (v :: vals) s1 = Some r.
+Proof.
+  induction f as [f IH] using (well_founded_induction lt_wf).
+  intros ops vals s r Hw Hr. destruct f as [|f]; [discriminate|].
+  cbn [dec_strict] in Hr. destruct s as [|b s0]; [discriminate|].
+  unfold CONS_BOX_MARKER in Hr. destruct (N.eqb_spec b 255) as [->|Hb].
+  - pose proof (wf_bytes_cons _ _ Hw) as [_ Hw0].
+    destruct (IH f ltac:(lia) _ _ _ _ Hw0 Hr) as (l & s1 & f1 & Hf1 & [g1 Hg1] & Hw1 & H1).
+    destruct (IH f1 ltac:(lia) _ _ _ _ Hw1 H1) as (r0 & s2 & f2 & Hf2 & [g2 Hg2] & Hw2 & H2).
+    destruct f2 as [|f2]; [discriminate|]. cbn [dec_strict] in H2.
+    exists (Cons l r0), s2, f2. split; [lia|]. split; [|split; [exact Hw2|exact H2]].
+    exists (S (g1 + g2)). cbn [spec_decode]. change (255 =? 255) with true. cbv iota.
+    rewrite (spec_decode_mono _ _ _ Hg1 (g1 + g2)%nat) by lia.
+    rewrite (spec_decode_mono _ _ _ Hg2 (g1 + g2)%nat) by lia. reflexivity.
+  - destruct (atom_from_stream b s0) as [[v|] s2] eqn:Ea; [|discriminate].
+    destruct (atom_from_stream_sound b s0 v s2 Hw Hb Ea) as [Hs Hw2].
+    exists v, s2, f. split; [lia|]. split; [|split; [exact Hw2|exact Hr]].
+    exists 1%nat. cbn [spec_decode]. replace (b =? 255) with false by (symmetry; apply N.eqb_neq; exact Hb). exact Hs.
+Qed.
+
+Theorem decode_sound s v rest : wf_bytes s = true ->
+  decode s = Some (v, rest) -> exists g, spec_decode g s = Some (v, rest).
+Proof.
+  intros Hw H. unfold decode in H.
+  destruct (dec_run (3 * length s + 3) [DRead] [] s) as [[vals s']|] eqn:E; [|discriminate].
+  destruct vals as [|v0 vs]; [discriminate|]. inversion H; subst v0 s'. clear H.
+  pose proof (lenient_is_strict _ [DRead] [] s _ _ eq_refl E ltac:(discriminate)) as Hs.
+  destruct (strict_read _ _ _ _ _ Hw Hs) as (v1 & s1 & f' & Hf & [g Hg] & Hw1 & H1).
+  destruct f' as [|f']; [discriminate|]. cbn [dec_strict] in H1. inversion H1; subst.
+  exists g. exact Hg.
+Qed.
+
+(* truncations of a valid encoding are rejected by the reference decoder, hence (decode_sound) never
+   decoded to a value different from what consensus says: they are rejected by decode as well
+   unless the reference accepts them *)
